@@ -264,6 +264,8 @@ pub struct Recv {
     pub inner_foreign: bool,
     /// `default` / `default = fn` on the only field of the newtype: its value when the item is absent
     pub inner_default: Def,
+    /// `multiple` on the only field of the newtype, typed `Vec<T>` (compile-only profile: known finding K3)
+    pub inner_multiple: bool,
 }
 
 impl Recv {
@@ -273,7 +275,7 @@ impl Recv {
             Shape::Newtype(t) if self.tr == Trait::Meta => Some(Field {
                 rust: "nt".to_string(),
                 ty: t.clone(),
-                multiple: false,
+                multiple: self.inner_multiple,
                 rename: None,
                 default: self.inner_default,
                 skip: self.inner_skip,
@@ -619,6 +621,7 @@ impl<'a> Gen<'a> {
             inner_skip: false,
             inner_foreign: false,
             inner_default: Def::None,
+            inner_multiple: false,
                     });
                     let inner = self.meta_recv(depth + 1, false);
                     self.recvs[outer].shape = Shape::Newtype(Ty::Recv(inner));
@@ -695,6 +698,7 @@ impl<'a> Gen<'a> {
             inner_skip: false,
             inner_foreign: false,
             inner_default: Def::None,
+            inner_multiple: false,
         });
         if self.rng.chance(2, 3) {
             let inner = match self.rng.below(4) {
@@ -747,6 +751,16 @@ impl<'a> Gen<'a> {
                 r.post = Post::None;
             }
         }
+        // `multiple` on the only field of a newtype over `Vec<T>`: accepted, and `T: FromMeta` is all the
+        // documentation asks of a `multiple` field (compile-only profile: see known finding K3)
+        if self.profile.options && self.profile.skip_newtype_foreign && matches!(self.recvs[id].shape, Shape::Newtype(Ty::Sc(Sc::Str | Sc::I64))) && !self.recvs[id].inner_skip && self.rng.chance(1, 5) {
+            let r = &mut self.recvs[id];
+            r.inner_multiple = true;
+            r.inner_with = With::None;
+            r.inner_post = Post::None;
+            r.inner_default = Def::None;
+            r.post = Post::None;
+        }
         // a declared value-for-absent on a unit / newtype receiver
         if self.profile.options && self.rng.chance(1, 3) {
             self.recvs[id].from_none = true;
@@ -780,6 +794,7 @@ impl<'a> Gen<'a> {
             inner_skip: false,
             inner_foreign: false,
             inner_default: Def::None,
+            inner_multiple: false,
         });
         let opts = self.profile.options;
         let mut r = self.recvs[id].clone();
@@ -964,6 +979,7 @@ impl<'a> Gen<'a> {
             inner_skip: false,
             inner_foreign: false,
             inner_default: Def::None,
+            inner_multiple: false,
         };
         self.recvs.push(r.clone());
         if self.profile.options && self.rng.chance(1, 3) {
@@ -1057,6 +1073,7 @@ impl<'a> Gen<'a> {
                 inner_skip: self.rng.chance(1, 4),
             inner_foreign: false,
             inner_default: Def::None,
+            inner_multiple: false,
             });
             return outer;
         }
@@ -1169,6 +1186,7 @@ impl<'a> Gen<'a> {
             inner_skip: false,
             inner_foreign: false,
             inner_default: Def::None,
+            inner_multiple: false,
         };
         self.recvs.push(r.clone());
         // one optional and one required scalar option keep body-layer mistakes expressible
